@@ -654,7 +654,14 @@ pub fn gen_program(ch: &mut Choices, curve: Curve, cfg: &GenCfg) -> Program {
             }
             Kind::Mul => {
                 let left = gen_lc(ch, f, cfg.max_terms.saturating_sub(1).max(1));
-                let right = gen_lc(ch, f, cfg.max_terms.saturating_sub(1).max(1));
+                let mut right = gen_lc(ch, f, cfg.max_terms.saturating_sub(1).max(1));
+                // now and then the two operands are related: the same expression (a square), or the
+                // same variables in the same order with other coefficients
+                match ch.weighted(&[226, 14, 16]) {
+                    1 => right = left.clone(),
+                    2 => right = left.iter().map(|(v, _)| (*v, gen_sc(ch, f, true))).collect(),
+                    _ => {}
+                }
                 f.new_gate(false);
                 Op::Mul { left, right }
             }
